@@ -626,7 +626,7 @@ PROPS = {
                     {"kind": "cli", "name": "verbose", "profile": "verbose", "count": {"quick": 32, "thorough": 300}, "salt": 154},
                     {"kind": "meta", "name": "meta", "profile": "mixed", "count": {"quick": 96, "thorough": 3000}, "salt": 155}],
         "assumptions": [
-            "partial: 'never hangs' is proved as progress of the controller model (stop_drains, guarded abort branch) under the property's assumption that every evaluation ends; that the runtime delivers completions is not provable here",
+            "partial: 'never hangs' is proved as progress of the controller model (stop_drains; Poll.poll_returns: one poll takes at most length(ready)+2 select-loop turns, with the regenerated guard of the abort branch) under the property's assumption that every evaluation ends; that the runtime delivers completions and wakes the future is not provable here",
             "objective values within +-2^997 (contains +-1e300); sample sizes below 2^26",
         ],
         "tested_not_proved": [
